@@ -2,7 +2,7 @@
 
 Keys: a closed family synthesised in one module: 3 base classes (dataclass D, Enum E,
 NamedTuple N) x {itself, NewType, TypeAliasType(value), TypeAliasType('string'), Final[..],
-ForwardRef(name, module)}.  Operations: insert fresh key, [], get(k, default), `in` (stored keys).
+ForwardRef(name, module), NewType of the NewType, Final[alias], alias of the NewType}.  Operations: insert fresh key, [], get(k, default), `in` (stored keys).
 
 Oracle: a reference model (write-once dict + the documented three-step lookup). The harness
 knows each key's unwrapped form and naming reference *by construction*.
@@ -10,7 +10,7 @@ knows each key's unwrapped form and naming reference *by construction*.
 * exhaustive part: breadth-first exploration of all operation sequences up to length 6 for every
   pair of base types, with prefix-state deduplication (two prefixes that leave the same context
   contents have the same futures);
-* random part: a Hypothesis RuleBasedStateMachine, up to 40 steps over all 18 keys.
+* random part: a Hypothesis RuleBasedStateMachine, up to 40 steps over all 24 keys.
 """
 
 from __future__ import annotations
@@ -27,18 +27,18 @@ from harness import core, tl
 from harness.core import st
 
 ID = "C16"
-RULE = ("exhaustive BFS of all operation sequences of length <= 6 per pair of base types with state "
-        "deduplication, plus random state-machine histories of <= 40 steps over 18 keys; non-trivial = a lookup "
+RULE = ("exhaustive BFS of all operation sequences of length <= 5 (quick) or 6 (thorough) per pair of base types with state "
+        "deduplication, plus random state-machine histories of <= 40 steps over 24 keys; non-trivial = a lookup "
         "answered through the unwrapped-form or forward-reference path, or any lookup issued after a lookup "
         "that memoised an alias key; distinct by (context contents before the operation, operation)")
 ASSUMPTIONS = ["base types are module-level classes so that 'the forward reference naming it' is one well-defined object",
                "internal memoisation is not observed (no len()/keys() comparison)"]
 TECHNIQUE = "model-based testing: exhaustive bounded BFS over operation sequences with state deduplication + Hypothesis rule-based state machine, compared step by step with a reference model"
-LEVEL_TEXT = ("Every operation sequence up to length 6 over the 12 keys of each pair of base types is executed against the "
+LEVEL_TEXT = ("Every operation sequence up to length 5 (quick) / 6 (thorough) over the 16 keys of each pair of base types is executed against the "
               "real TypeContext and a 20-line reference model (complete for that bound); longer random histories over all "
-              "18 keys are explored with a Hypothesis state machine.")
+              "24 keys are explored with a Hypothesis state machine.")
 LEVEL_NOTE = "trusts the reference model's reading of the three-step lookup order and typing.ForwardRef equality (name, module)"
-EXHAUSTIVE_NOTE = "all sequences of length <= 6 over {insert, [], get, in} x 12 keys for each of the 3 pairs of base types (deduplicated by reachable context contents)"
+EXHAUSTIVE_NOTE = "all sequences of length <= 5 (quick) / <= 6 (thorough) over {insert, [], get, in} x 16 keys for each of the 3 pairs of base types (deduplicated by reachable context contents)"
 
 MOD = "c16_keys_mod"
 SRC = '''
@@ -64,9 +64,12 @@ for _b in (D, E, N):
     KEYS[_n, "stralias"] = TypeAliasType(_n + "_str", _n)
     KEYS[_n, "final"] = Final[_b]
     KEYS[_n, "ref"] = ForwardRef(_n, module=__name__)
+    KEYS[_n, "newtype2"] = NewType(_n + "_new2", KEYS[_n, "newtype"])        # NewType of a NewType
+    KEYS[_n, "finalalias"] = Final[KEYS[_n, "alias"]]                        # Final[alias]
+    KEYS[_n, "aliasnew"] = TypeAliasType(_n + "_aliasnew", KEYS[_n, "newtype"])  # alias whose value is a NewType
 '''
 
-FORMS = ["self", "newtype", "alias", "stralias", "final", "ref"]
+FORMS = ["self", "newtype", "alias", "stralias", "final", "ref", "newtype2", "finalalias", "aliasnew"]
 BASES = ["D", "E", "N"]
 _KEYS = None
 
@@ -307,7 +310,9 @@ def machine(col, seed, n_examples, steps):
 # ---- runner interface -------------------------------------------------------------------------------
 
 def plan(tier, seed):
-    shards = [{"kind": "bfs", "pair": list(p), "depth": 6} for p in itertools.combinations(BASES, 2)]
+    # 18 keys per pair of bases: length 5 is complete in seconds, length 6 (thorough) takes about a minute
+    depth = 5 if tier == "quick" else 6
+    shards = [{"kind": "bfs", "pair": list(p), "depth": depth} for p in itertools.combinations(BASES, 2)]
     n = 150 if tier == "quick" else 3000
     for k in range(13):
         shards.append({"kind": "random", "seed": seed * 1000 + k, "n": n})
